@@ -8,6 +8,7 @@ import Flowjaxv.Proofs.DistTheory
 import Flowjaxv.Proofs.Params
 import Flowjaxv.Proofs.Triangular
 import Flowjaxv.Model.Flows
+import Flowjaxv.Proofs.JaxTransforms
 /-!
 # Whole premade flows: lawfulness, log-det antisymmetry, change of variables — every number of layers
 
@@ -125,12 +126,17 @@ theorem chainAll_of_forall {ls : List (Bij X C ℝ)} {D : Set X} (h : ∀ b ∈ 
     exact .cons (h b (List.mem_cons_self ..)).1 (h b (List.mem_cons_self ..)).2
       (ih fun b' hb' => h b' (List.mem_cons_of_mem _ hb'))
 
+/-- `Flows.scanOf` — the GENERATED `Scan` methods (`Gen/JaxTransforms.lean`) on the stacked layers — is the generated `Chain` of
+the unstacked layers (`JaxTrProofs.scan_toBij_eq_chain`) -/
+theorem scanOf_eq_chain {α : Type} [Add α] [Sub α] [Neg α] [OfNat α 0] (ls : List (Bij X C α)) :
+    scanOf ls = (Chain.mk ls).toBij := JaxTrProofs.scan_toBij_eq_chain (JaxTr.scanOfLayers ls)
+
 /-- **Scan of any number of layers, each lawful on `D`, is lawful on `D`** (induction on the layer list via `ChainLawful`) -/
-theorem scan_lawful {ls : List (Bij X C ℝ)} {D : Set X} (h : ∀ b ∈ ls, b.Lawful D D) : (scanOf ls).Lawful D D :=
-  Gen.chain_lawful (chainLawful_of_forall h)
+theorem scan_lawful {ls : List (Bij X C ℝ)} {D : Set X} (h : ∀ b ∈ ls, b.Lawful D D) : (scanOf ls).Lawful D D := by
+  rw [scanOf_eq_chain]; exact Gen.chain_lawful (chainLawful_of_forall h)
 
 theorem scan_ldAntisym {ls : List (Bij X C ℝ)} {D : Set X} (h : ∀ b ∈ ls, b.Lawful D D ∧ b.LdAntisym D) :
-    (scanOf ls).LdAntisym D := LogDet.chain_ld_antisym (chainAll_of_forall h)
+    (scanOf ls).LdAntisym D := by rw [scanOf_eq_chain]; exact LogDet.chain_ld_antisym (chainAll_of_forall h)
 
 /-- both values of the `invert` flag -/
 theorem orient_lawful {b : Bij X C ℝ} {D : Set X} (h : b.Lawful D D) (invert : Bool) :
@@ -490,6 +496,7 @@ theorem FwdLawful.of_lawful {b : Bij X C ℝ} {D : Set X} (h : b.Lawful D D) : F
   ⟨h.maps, fun x hx x' hx' c e => by rw [← h.left x hx c, e, h.left x' hx' c], h.fwdLd_fst⟩
 
 theorem scan_fwdLawful {ls : List (Bij X C ℝ)} {D : Set X} (h : ∀ b ∈ ls, FwdLawful b D) : FwdLawful (scanOf ls) D := by
+  rw [scanOf_eq_chain]
   refine ⟨?_, ?_, fun x c => Chain.tld_fst ls c (fun b hb x => (h b hb).fwdLd_fst x c) x⟩
   · induction ls with
     | nil => intro x hx c; simpa [scanOf, Chain.toBij] using hx
@@ -513,6 +520,7 @@ structure FwdPoint (b : Bij X C ℝ) (D : Set X) : Prop where
   fwdLd_fst : ∀ x c, (b.fwdLd x c).1 = b.fwd x c
 
 theorem scan_fwdPoint {ls : List (Bij X C ℝ)} {D : Set X} (h : ∀ b ∈ ls, FwdPoint b D) : FwdPoint (scanOf ls) D := by
+  rw [scanOf_eq_chain]
   refine ⟨?_, fun x c => Chain.tld_fst ls c (fun b hb x => (h b hb).fwdLd_fst x c) x⟩
   induction ls with
   | nil => intro x hx c; simpa [scanOf, Chain.toBij] using hx
